@@ -133,6 +133,8 @@ var ruleA5 = &Rule{
 				st := OK
 				if !ok {
 					st = Violation
+				} else {
+					msg = ""
 				}
 				obls = append(obls, Obl{Key: name + " " + k, Pos: c.pos(pos), Status: st, Msg: msg})
 			}
@@ -820,6 +822,8 @@ var ruleA6 = &Rule{
 				st := OK
 				if !ok {
 					st = Violation
+				} else {
+					msg = ""
 				}
 				obls = append(obls, Obl{Key: name + " " + k, Pos: c.pos(pos), Status: st, Msg: msg})
 			}
